@@ -1243,7 +1243,8 @@ def to_native(array, inplace=False, keep_dtype=False):
         # assume all are same byte order: we only need to find one with
         # little endian
         for fname in array.dtype.names:
-            if is_little_endian(array[fname]):
+            byteorder = _get_byteorder(array.dtype[fname])
+            if byteorder == "<" or (machine_little and byteorder == "="):
                 data_little = True
                 break
 
@@ -1283,6 +1284,23 @@ def descr_to_native(descr):
     return newd
 
 
+def _get_byteorder(dtype):
+    """
+    The byte order character of a field's dtype: that of the base type of a
+    scalar or sub-array field; for a nested record that of its first field
+    (searched recursively) that has a byte order.  '|' if there is none
+    (strings, single-byte types).
+    """
+    dtype = dtype.base
+    if dtype.names is None:
+        return dtype.byteorder
+    for name in dtype.names:
+        byteorder = _get_byteorder(dtype[name])
+        if byteorder != "|":
+            return byteorder
+    return "|"
+
+
 def to_big_endian(array, inplace=False, keep_dtype=False):
     """
     NAME:
@@ -1315,10 +1333,13 @@ def to_big_endian(array, inplace=False, keep_dtype=False):
         # assume all are same byte order: we only need to find one with
         # little endian
         for fname in array.dtype.names:
-            if array.dtype[fname].base.byteorder == "|":
+            byteorder = _get_byteorder(array.dtype[fname])
+            if byteorder == "|":
                 # strings and single-byte fields have no byte order
                 continue
-            if not is_big_endian(array[fname]):
+            if byteorder == "=":
+                byteorder = "<" if np.little_endian else ">"
+            if byteorder != ">":
                 doswap = True
                 break
 
@@ -1365,10 +1386,13 @@ def to_little_endian(array, inplace=False, keep_dtype=False):
         # assume all are same byte order: we only need to find one with
         # little endian
         for fname in array.dtype.names:
-            if array.dtype[fname].base.byteorder == "|":
+            byteorder = _get_byteorder(array.dtype[fname])
+            if byteorder == "|":
                 # strings and single-byte fields have no byte order
                 continue
-            if not is_little_endian(array[fname]):
+            if byteorder == "=":
+                byteorder = "<" if np.little_endian else ">"
+            if byteorder != "<":
                 doswap = True
                 break
 
